@@ -32,7 +32,7 @@ theorem toMarrow_ok_iff (ext : Ext) (fields : List Field) (rows : List SVal) (ro
   constructor
   · rintro ⟨arrs, h⟩ x hx
     obtain ⟨_, cols, _, _, _, hr⟩ := C01.C01_build_decode ext fields rows arrs hschema hc
-      (fun r hr => by rw [h0] at hr; cases hr; exact hsafe) hraw h
+      (fun r hr => by rw [h0] at hr; cases hr; exact hsafe) (fun x hx => noRaw_ssa x (hraw x hx)) (Or.inl hraw) h
     obtain ⟨i, hi, rfl⟩ := List.getElem_of_mem hx
     exact ⟨_, hr i hi⟩
   · intro hall
@@ -84,14 +84,14 @@ theorem C11_presentations_success (ext : Ext) (fields : List Field) (rows1 rows2
     (h1 : toMarrow ext fields rows1 = .ok arrs1) :
     ∃ arrs2, toMarrow ext fields rows2 = .ok arrs2 ∧ arrs1.map decodeAll = arrs2.map decodeAll := by
   have hsafe' : ∀ r, newRoot fields = .ok r → Safe r := fun r hr => by rw [h0] at hr; cases hr; exact hsafe
-  obtain ⟨_, cols, _, _, _, hr⟩ := C01.C01_build_decode ext fields rows1 arrs1 hschema hc hsafe' hraw1 h1
+  obtain ⟨_, cols, _, _, _, hr⟩ := C01.C01_build_decode ext fields rows1 arrs1 hschema hc hsafe' (fun x hx => noRaw_ssa x (hraw1 x hx)) (Or.inl hraw1) h1
   have hok : ∀ y ∈ rows2, noRaw y = true ∧ ∃ lv, interpRow ext fields y = .ok lv := by
     intro y hy
     obtain ⟨x, hx, e⟩ := mem_map_eq hsame y hy
     obtain ⟨i, hi, rfl⟩ := List.getElem_of_mem hx
     exact ⟨hraw2 y hy, _, by rw [← e]; exact hr i hi⟩
   obtain ⟨arrs2, h2⟩ := C01.toMarrow_complete ext fields rows2 root0 hc h0 hsafe htot htyped hok hcap2
-  exact ⟨arrs2, h2, C11_presentations ext fields rows1 rows2 arrs1 arrs2 hschema hc hsafe' hraw1 hraw2 hsame h1 h2⟩
+  exact ⟨arrs2, h2, C11_presentations ext fields rows1 rows2 arrs1 arrs2 hschema hc hsafe' (RawRows.of_noRaw hraw1) (RawRows.of_noRaw hraw2) hsame h1 h2⟩
 
 /-! ### non-vacuity -/
 
